@@ -426,6 +426,9 @@ class InterpolatedLinearOperator(LinearOperator):
                 right_interp_values=new_right_interp_values,
             )
 
+        if isinstance(other, LinearOperator):
+            return super().matmul(other)
+
         if other.ndimension() == 1:
             is_vector = True
             other = other.unsqueeze(-1)
